@@ -576,7 +576,7 @@ pub fn run_once(prog: &Program, hasher: &TableHasher, prefix: &[(u16, u16)], max
     match &abort {
         Some(Abort::Deadlock(m)) if thread_panics.is_empty() => {
             let holder = prog.threads.iter().any(|t| t.iter().any(|o| matches!(o, TOp::IterHoldGet(_) | TOp::Iter)));
-            let site = if m.contains("(blocked)") && holder && (m.contains("up.reject") || m.contains("up.victim") || m.contains("peeked")) {
+            let site = if m.contains("(blocked)") && holder && m.contains("@map.") {
                 "maintenance-removal-blocked-by-iterator"
             } else {
                 "other"
@@ -639,7 +639,10 @@ fn superseded(all: &[Rec], ins: &Rec, k: u8, before: u64) -> Option<String> {
 }
 
 fn check_history(prog: &Program, all: &[Rec], viol: &mut Vec<Violation>) {
-    let _ = prog;
+    // values written inside a Burst are not recorded one by one
+    if prog.threads.iter().flatten().any(|o| matches!(o, TOp::Burst(..))) {
+        return;
+    }
     let inserts: Vec<&Rec> = all.iter().filter(|r| matches!(r.op, TOp::Ins(..))).collect();
     let observe = |k: u8, id: u32, reader: &Rec, how: &str, viol: &mut Vec<Violation>| {
         let src = inserts.iter().find(|i| i.vid == id && matches!(i.op, TOp::Ins(k2, _) if k2 == k));
@@ -685,13 +688,17 @@ fn check_history(prog: &Program, all: &[Rec], viol: &mut Vec<Violation>) {
             _ => {}
         }
     }
-    // iteration beside writers: every key resident throughout is yielded
-    if prog.cfg.cap.is_none() && !prog.cfg.has_expiry() {
+    // iteration beside writers: every key resident (and live) throughout is yielded
+    if prog.cfg.cap.is_none() && prog.cfg.tti.is_none() {
         for r in all {
             if let (TOp::Iter, Obs::Items(items)) = (&r.op, &r.obs) {
                 for k in 0..prog.cfg.nkeys {
                     let removed = all.iter().any(|x| matches!(x.op, TOp::Inv(k2) if k2 == k) || matches!(x.op, TOp::InvAll));
-                    let there = inserts.iter().any(|i| matches!(i.op, TOp::Ins(k2, _) if k2 == k) && after(r, i));
+                    // an insert that completed before the iteration began and whose
+                    // value cannot have expired before the iteration ended
+                    let there = inserts.iter().any(|i| {
+                        matches!(i.op, TOp::Ins(k2, _) if k2 == k) && after(r, i) && prog.cfg.ttl_ms().map(|d| r.t1 < i.t0 + d).unwrap_or(true)
+                    });
                     if there && !removed && !items.iter().any(|(k2, _)| *k2 == k) {
                         viol.push(Violation { prop: "C16", sig: "sched:iter-misses-resident-key".into(), detail: format!("key {k} was resident during the whole iteration by T{} but was not yielded: {items:?}", r.thread), witness: String::new() });
                     }
@@ -1024,6 +1031,17 @@ pub fn family(name: &str, tier: &str) -> Vec<Program> {
                     out.push(Program { cfg: base(cap, None), prefix: vec![Op::Ins(0, 1), Op::Sync], threads: t.clone() });
                 }
             }
+            // maintenance evicting / rejecting an entry while writers update the same key:
+            // the prelude leaves a popular newcomer and an update of its victim queued
+            for th in [
+                vec![vec![TOp::Sync], vec![TOp::Ins(0, 1), TOp::Get(0)]],
+                vec![vec![TOp::Sync], vec![TOp::Inv(0), TOp::Ins(0, 1), TOp::Get(0)]],
+                vec![vec![TOp::Sync, TOp::Get(0)], vec![TOp::Ins(0, 1)]],
+            ] {
+                out.push(Program { cfg: base(Some(1), None), prefix: vec![Op::Ins(0, 1), Op::Sync, Op::Get(1), Op::Ins(0, 1), Op::Ins(1, 1)], threads: th.clone() });
+                out.push(Program { cfg: base(Some(1), None), prefix: vec![Op::Ins(0, 1), Op::Sync, Op::Get(1), Op::Get(1), Op::Ins(1, 1)], threads: th.clone() });
+                out.push(Program { cfg: base(Some(1), None), prefix: vec![Op::Ins(0, 1), Op::Sync, Op::Get(1), Op::Ins(1, 1), Op::Ins(0, 1)], threads: th.clone() });
+            }
         }
         // invalidation against readers / writers, incl. clock movement
         "c07" => {
@@ -1091,6 +1109,15 @@ pub fn family(name: &str, tier: &str) -> Vec<Program> {
                     }
                 }
             }
+            // back-pressure while another thread holds the housekeeping flag: it entered
+            // maintenance through try_sync (a get in the "within" regime) and is preempted
+            // there while the writer fills the queue
+            for cap in [Some(1u64), Some(10)] {
+                let mut c = base(cap, None);
+                c.nkeys = 5;
+                c.beyond = false;
+                out.push(Program { cfg: c, prefix: vec![Op::Ins(0, 1)], threads: vec![vec![TOp::Get(0)], vec![TOp::Burst(386, 3), TOp::Ins(1, 1)]] });
+            }
             // back-pressure with a second thread inside maintenance
             for cap in [Some(1u64), Some(10)] {
                 let mut c = base(cap, None);
@@ -1109,7 +1136,18 @@ pub fn family(name: &str, tier: &str) -> Vec<Program> {
                 out.push(Program { cfg: c.clone(), prefix: pre.clone(), threads: vec![vec![TOp::Iter], vec![TOp::Ins(2, 1)], vec![TOp::Ins(0, 1)]] });
                 out.push(Program { cfg: c.clone(), prefix: pre.clone(), threads: vec![vec![TOp::Iter], vec![TOp::Get(0), TOp::Ins(1, 1)]] });
             }
+            // iteration while maintenance purges expired entries that a writer refreshes
+            for hash in [HashKind::SameShard, HashKind::Spread] {
+                let mut c = base(None, None);
+                c.ttl = Some(2);
+                c.hash = hash;
+                c.nkeys = 2;
+                let pre = vec![Op::Ins(0, 1), Op::Ins(1, 1), Op::Sync, Op::Adv(2)];
+                out.push(Program { cfg: c.clone(), prefix: pre.clone(), threads: vec![vec![TOp::Sync], vec![TOp::Ins(0, 1)], vec![TOp::Iter]] });
+                out.push(Program { cfg: c.clone(), prefix: pre.clone(), threads: vec![vec![TOp::Ins(0, 1), TOp::Sync], vec![TOp::Iter]] });
+            }
         }
+        // (c16 continued below)
         // overshoot between maintenance runs: two inserting threads against maintenance
         "c04" => {
             for cap in [Some(0u64), Some(1)] {
